@@ -46,7 +46,7 @@ CLASSES = [
 QUICK_CLASSES = {'plain', 'nl', 'cr', 'tab', 'esc', 'nul', 'cjk', 'quote', 'bs', 'brk2', 'pos', 'nlbrk'}
 RAW_OK = {'plain', 'nonascii', 'cjk', 'emoji', 'quote', 'bs', 'brk', 'pos'}
 FNAMES = ['<stdin>', 'vp-c16/w.yml', 'vp c16/ワーク flow.yaml', '.github/workflows/a-b_c.yml']
-MODE_ORDER = ['oneline', 'default', 'range', 'json', 'color', 'color-oneline']
+MODE_ORDER = ['oneline', 'default', 'range', 'rangecount', 'json', 'color', 'color-oneline']
 SNIP_MODES = {'default', 'color'}
 ESCAPE = re.compile('\x1b\\[\\d+m')       # the escape sub-pattern of the matcher
 
@@ -200,6 +200,7 @@ def echo_records(case, out):
             rec = {'k': 'json', 'mode': mode, 'fail': fail, 'ok': ok, 'ds': ds, 'parsed': parsed}
         else:
             rec = {'k': 'text', 'mode': mode, 'snip': mode in SNIP_MODES, 'fail': fail, 'ds': ds,
+                   'pre': 1 if mode == 'rangecount' else 0,
                    'ls': [{'p': x['p'], 'g': x['g'], 'n': x['n'], 'eq': x['eq'], 'm': x['m']} for x in md['ls']]}
         recs.append((rec, {'kind': 'echo', 'case': case['id'], 'mode': mode}))
     return recs
@@ -275,6 +276,143 @@ def concrete_src(src):
 def short(s, n=160):
     s = repr(s)
     return s if len(s) <= n else s[:n] + '...'
+
+
+# ------------------------------------------------------------------------------- multi-file
+
+CLEAN_WF = 'on: push\njobs:\n  ok:\n    runs-on: ubuntu-latest\n    steps:\n      - run: echo\n'
+MULTI_NAMES = ['a.yml', 'b c.yaml', 'ワーク.yml', 'd.yml']
+MULTI_CLASSES = ['plain', 'cjk', 'quote', 'pos']
+
+
+def multi_cases(sites, quick):
+    """one invocation = 2-3 catalogue workflows (each with diagnostics) + one clean file, in varying order"""
+    flat = [s for s in sites if not s['files'] and '@R@' not in s['wf'] and '@T@' not in s['wf']]
+    hs = dict(CLASSES)
+    cases = []
+    step = 3 if quick else 1
+    for i in range(0, len(flat) - 2, step):
+        n = 2 + (i // step) % 2                                    # 2 or 3 files with diagnostics
+        wfs = []
+        for k in range(n):
+            cls = MULTI_CLASSES[(i + k) % len(MULTI_CLASSES)]
+            wfs.append(subst(flat[i + k]['wf'], cls, hs[cls]))
+        pos = (i // step) % (n + 1)                                # where the clean file stands
+        wfs.insert(pos, CLEAN_WF)
+        cases.append({'id': len(cases), 'files': [{'name': MULTI_NAMES[j], 'src': w} for j, w in enumerate(wfs)],
+                      'sites': [flat[i + k]['id'] for k in range(n)], 'clean_at': pos})
+    return cases
+
+
+def run_multi(cases, sd, name):
+    fin, fout = os.path.join(sd, name + '_in.jsonl'), os.path.join(sd, name + '_out.jsonl')
+    vplib.write_jsonl(fin, [{'id': c['id'], 'files': c['files']} for c in cases])
+    tmp = os.path.join(sd, name + '_tmp')
+    os.makedirs(tmp, exist_ok=True)
+    vplib.run_harness(['report-multi', fin, fout, matcher_path(), tmp],
+                      env={'GOMAXPROCS': str(vplib.NCPU), 'RUNEWIDTH_EASTASIAN': '0'})
+    outs = vplib.read_jsonl(fout)
+    if len(outs) != len(cases):
+        raise Inconclusive('harness returned %d results for %d multi-file cases' % (len(outs), len(cases)))
+    return outs
+
+
+def multi_records(cases, outs):
+    recs = []
+    for c, o in zip(cases, outs):
+        if o.get('linterr'):
+            continue
+        for rec, br in echo_records(c, o):
+            recs.append((rec, {'kind': 'multi', 'case': c['id'], 'mode': br['mode']}))
+    return recs
+
+
+def multi_part(ck, sd, sites, quick):
+    """LintFiles: several files in one invocation, every mode.  The []*Error of the same call is the list over all
+    files in argument order; stdout must be its image: headers in that order, ONE JSON document, template run once."""
+    cases = multi_cases(sites, quick)
+    outs = run_multi(cases, sd, 'multi')
+    skipped = [c['id'] for c, o in zip(cases, outs) if o.get('linterr')]
+    if len(skipped) > len(cases) // 4:
+        raise Inconclusive('multi-file runs fail: %s' % outs[skipped[0]]['linterr'])
+    nfiles_with = 0
+    for c, o in zip(cases, outs):
+        if o.get('linterr'):
+            continue
+        ref = o['modes']['oneline']['diags']
+        files_seen = []
+        for d in ref:
+            if d['file'] not in files_seen:
+                files_seen.append(d['file'])
+        # vacuity guard: at least two files contribute diagnostics, the clean file none, files in argument order
+        want = [n for j, n in enumerate(o['names']) if j != c['clean_at']]
+        if len(files_seen) < 2 or files_seen != [n for n in want if n in files_seen]:
+            raise Inconclusive('multi-file case %d is not as designed: diagnostics of files %s, arguments %s'
+                               % (c['id'], files_seen, o['names']))
+        nfiles_with += len(files_seen)
+    recs = multi_records(cases, outs)
+    bad, _ = validate(ck, recs, '%d invocations over 3-4 files (one of them clean) x 7 modes' % (len(cases) - len(skipped)), 'trace-multi')
+    ck.cov['traces_validated_against_impl'] += len(recs)
+    ck.cov['evaluations'] += len(recs)
+    ck.cov['multi_file_invocations'] = len(cases)
+    ck.cov['distinct_nontrivial'] += len(cases) - len(skipped)
+    cmd_differs = [(c['id'], mode) for c, o in zip(cases, outs) for mode, md in o['modes'].items() if md.get('cmd') == 'differs']
+    rer = sorted({recs[i][1]['case'] for i in bad} | {cid for cid, _ in cmd_differs})
+    if rer:
+        sub = [dict(cases[cid]) for cid in rer]
+        outs2 = run_multi(sub, sd, 'multi-rerun')
+        recs2 = multi_records(sub, outs2)
+        bad2, _ = validate(ck, recs2, 're-execution of rejected multi-file invocations', 'trace-multi-rerun')
+        again = {(recs2[j][1]['case'], recs2[j][1]['mode']): (code, recs2[j][0]) for j, code in bad2.items()}
+        groups = {}
+        unrepro = 0
+        for i, code in sorted(bad.items()):
+            br = recs[i][1]
+            if (br['case'], br['mode']) not in again:
+                unrepro += 1
+                continue
+            code2, rec2 = again[(br['case'], br['mode'])]
+            g = groups.setdefault('render-multi:%s:%s' % (code2, br['mode']), {'n': 0, 'first': None})
+            g['n'] += 1
+            if g['first'] is None:
+                c = cases[br['case']]
+                o2 = outs2[rer.index(br['case'])]
+                g['first'] = ('one invocation over the files %s (catalogue workflows %s, clean file at position %d), mode %s: %s; '
+                              '%d diagnostics returned, stdout %s'
+                              % ([f['name'] for f in c['files']], c['sites'], c['clean_at'] + 1, br['mode'], explain_multi(code2),
+                                 len(rec2['ds']), short(o2['modes'][br['mode']]['out'], 300)),
+                              {'kind': 'multi', 'code': code2, 'mode': br['mode'],
+                               'case': {'id': 0, 'files': c['files'], 'sites': c['sites'], 'clean_at': c['clean_at']}})
+        for site, g in sorted(groups.items()):
+            ck.violation(site, g['first'][0] + ' (%d invocations)' % g['n'], g['first'][1])
+        by = {o2['id']: o2 for o2 in outs2}
+        for cid, mode in cmd_differs:
+            a, b = outs[cid]['modes'][mode], by[cid]['modes'].get(mode, {})
+            if b.get('cmd') == 'differs' and a['out'] == b['out'] and a.get('cmdout') == b.get('cmdout') and \
+                    sorted(a.get('cmdout', '').split('\n')) != sorted(a['out'].split('\n')):
+                ck.violation('command-main-multi:%s' % mode,
+                             'stdout of Command.Main %s over several files differs from the output of Linter.LintFiles with '
+                             'the same options, twice: %s vs %s' % (mode, short(a.get('cmdout', ''), 200), short(a['out'], 200)),
+                             {'kind': 'multi-cmd', 'mode': mode, 'case': {'id': 0, 'files': cases[cid]['files'],
+                                                                         'sites': cases[cid]['sites'], 'clean_at': cases[cid]['clean_at']}})
+                break
+        if unrepro:
+            raise Inconclusive('%d rejected multi-file records were not rejected again when re-executed' % unrepro)
+    ok0 = next((o for o in outs if not o.get('linterr')), None)
+    if ok0:
+        ck.sample({'multi_file_invocation': {'files': ok0['names'], 'json_stdout': ok0['modes']['json']['out'][:300]}})
+
+
+def explain_multi(code):
+    return {'json': "-format '{{json .}}' is not ONE JSON array that round-trips the diagnostics of all files in argument order",
+            'template': 'the user template was not executed exactly once over the diagnostics of all files '
+                        '(its leading "total=" line is missing, repeated or carries another count)',
+            'count': 'the number of header lines differs from the number of diagnostics of the invocation',
+            'header': 'the header lines are not those of the diagnostics of all files, in argument order',
+            'matcher': 'the shipped matcher pattern does not parse a header line back to the diagnostic',
+            'snippet': 'the snippet below a header is not the referenced line of that file',
+            'linebreak': 'a message contains a line break', 'fails': 'rendering failed'}.get(code, code)
+
 
 
 # ------------------------------------------------------------------------------------- run
@@ -418,6 +556,9 @@ def run(ck, tier):
 
     # ---- re-execute every rejected case before reporting it
     report_findings(ck, sd, bad, recs, svecs, cases, sites, cmd_differs, outs)
+
+    # ---- T: several files in one invocation (LintFiles), every mode
+    multi_part(ck, sd, sites, quick)
     if not quick:
         selftest(ck, recs)
     ck.sample({'echo_run': {'site': cases[1]['site'], 'class': cases[1]['cls'], 'workflow': cases[1]['src'],
@@ -709,6 +850,23 @@ def replay(path):
         bad, _ = validate(None, [(rec, {})], 'replay', 'trace-replay')
         print('property violated (%s)' % bad[0] if bad else 'property holds')
         return 1 if bad else 0
+    if rp['kind'] in ('multi', 'multi-cmd'):
+        case = dict(rp['case'], id=0)
+        o = run_multi([case], sd, 'r')[0]
+        if o.get('linterr'):
+            print('lint failed: ' + o['linterr'])
+            return 0
+        if rp['kind'] == 'multi-cmd':
+            print('Command.Main stdout %s' % o['modes'][rp['mode']]['cmd'])
+            return 1 if o['modes'][rp['mode']]['cmd'] == 'differs' else 0
+        print('%d diagnostics; stdout of mode %s:\n%s' % (len(o['modes'][rp['mode']]['diags']), rp['mode'], o['modes'][rp['mode']]['out']))
+        recs = multi_records([case], [o])
+        bad, _ = validate(None, recs, 'replay', 'trace-replay')
+        for i, code in sorted(bad.items()):
+            print('mode %-14s rejected: %s' % (recs[i][1]['mode'], explain_multi(code)))
+        same = [i for i, code in bad.items() if code == rp['code'] and recs[i][1]['mode'] == rp['mode']]
+        print('property violated' if same else 'property holds (for the recorded clause)')
+        return 1 if same else 0
     case = dict(rp['case'], id=0)
     o = run_echo([case], sd, 'r')[0]
     if o.get('linterr'):
